@@ -77,6 +77,19 @@ impl Default for Plan {
 /// Drives `f` over every input of the plan that belongs to this shard.
 /// `f` returns false to stop early (violation budget exhausted).
 pub fn for_each_input(ctx: &mut Ctx, plan: &Plan, f: &mut dyn FnMut(&mut Ctx, &[u8], Src, &mut Rng) -> bool) {
+    // sanitizer layers run a scaled-down workload: shorter enumerations, no large corpus files
+    let mut plan = plan.clone();
+    if ctx.scale_pct <= 2 {
+        plan.bytes_n = plan.bytes_n.min(3);
+        plan.tokens_k = plan.tokens_k.min(2);
+        plan.corpus_max_len = plan.corpus_max_len.min(2048);
+        plan.truncate_all = false;
+    } else if ctx.scale_pct < 100 {
+        plan.bytes_n = plan.bytes_n.saturating_sub(2).max(plan.bytes_n.min(3));
+        plan.tokens_k = plan.tokens_k.saturating_sub(1).max(plan.tokens_k.min(2));
+        plan.corpus_max_len = plan.corpus_max_len.min(64 << 10);
+    }
+    let plan = &plan;
     let mut rng = ctx.rng(1);
     let mut digits = Vec::new();
     let mut buf = Vec::new();
